@@ -126,6 +126,9 @@ func C07(ctx *core.Ctx, r *core.Report) {
 	c07Accumulate(ctx, r)
 	noValueTextEquality(ctx, r)
 	c07DepthFromBase(ctx, r)
+	postConstraintsAlwaysRun(ctx, r)
+	r.Count("instances:ineffective-break(found)", ineffectiveBreak(ctx, r, "node"))
+	c08NavigationBeforeState(ctx, r)
 }
 
 // errReplaced: the error is tested and, when non-nil, replaced by another
